@@ -35,10 +35,12 @@
 (* symbols, 30 752 states), MC_Glob_bnd_a (1 x 3, names <= 4, 2 738 385),  *)
 (* MC_Glob_bnd_b (2 x 2, names <= 3, 3 160 170), MC_Glob_bnd_c (2 x 3,     *)
 (* names <= 3 over {a,*,?,\}, 621 350), MC_Glob_doc_quick / _doc           *)
-(* (<= 3 paragraphs: LastWins; 22 587 / 694 k states)  , MC_Glob_emit and  *)
+(* (<= 3 paragraphs: LastWins; 22 587 / 694 022 states), MC_Glob_emit and  *)
 (* MC_Glob_doc_emit (emission).  Histories: GlobCache.tla (per-paragraph   *)
 (* regex cache, error path), GlobMemo.tla (direct globs_to_re calls within *)
 (* one process), GlobFind.tla (lookups on one document edited in place).   *)
+(* BlockInvariance (quick, bnd_b: L = 3) model-checks the size argument    *)
+(* the binding uses for long patterns / names (see below).                 *)
 (*                                                                         *)
 (* Spec-level negative controls (all tried, all make TLC report the stated *)
 (* violation; the harness re-runs them in every check):                    *)
